@@ -194,6 +194,26 @@ pub fn dump() -> Value {
             fam!("lj_trimer", PotentialState::from_group(LJShape2::from_trimer(0.637556, 120., 1.), &g).unwrap(), PotentialState<LJShape2>, "Hexagonal", std::f64::consts::FRAC_PI_3);
             fam!("lj_trimer", PotentialState::from_group(LJShape2::from_trimer(0.637556, 120., 1.), &g).unwrap(), PotentialState<LJShape2>, "Tetragonal", std::f64::consts::FRAC_PI_2);
         }
+        // ... and with the site's (otherwise unused) rotation count set to other values, as a file can: the declared
+        // ranges do not depend on it
+        {
+            macro_rules! rot {
+                ($name:expr, $st:expr, $t:ty, $n:expr) => {{
+                    let mut v = serde_json::to_value(&$st).unwrap();
+                    if let Some(sites) = v["occupied_sites"].as_array_mut() {
+                        for s in sites.iter_mut() {
+                            s["wyckoff"]["num_rotations"] = json!($n);
+                        }
+                    }
+                    let st: $t = serde_json::from_value(v).unwrap();
+                    states.insert(format!("{}@rot{}", $name, $n), probe_state(&st));
+                }};
+            }
+            rot!("hard_trimer", PackedState::from_group(MolecularShape2::from_trimer(0.637556, 120., 1.), &g).unwrap(), PackedState<MolecularShape2>, 0);
+            rot!("hard_trimer", PackedState::from_group(MolecularShape2::from_trimer(0.637556, 120., 1.), &g).unwrap(), PackedState<MolecularShape2>, 3);
+            rot!("lj_circle", PotentialState::from_group(LJShape2::circle(), &g).unwrap(), PotentialState<LJShape2>, 0);
+            rot!("lj_circle", PotentialState::from_group(LJShape2::circle(), &g).unwrap(), PotentialState<LJShape2>, 3);
+        }
         groups.push(json!({
             "cli": name, "name": g.name, "family": format!("{:?}", g.family),
             "ops_str": g.wyckoff_str, "ops": ops, "ops_error": err,
